@@ -165,6 +165,8 @@ def run_spec(arg):
     if out["reach"] == 0 and out["result"] == "holds":
         out["result"] = "inconclusive"
         out["why"] = "vacuous: no (path, reference case) pair is satisfiable"
+    if out["result"] == "holds":
+        U.validate_native(E, paths, lv, conc, out)
     return out
 
 
@@ -177,12 +179,13 @@ def concrete_check(mod, spec, vals, w=None):
     g = mod.gen(spec, lv)
     text = g["text"]
     what = g.get("what", ("meta", "ops", "modes", "vars", "params"))
+    T.PyAlg.overflow = False
     try:
         cases = ref_cases(w, text, lv, False)
     except Exception as e:  # noqa
         return "skip"
     (rconds, routcome, it) = cases[0]
-    if not it.dom.ok:
+    if not it.dom.ok or T.PyAlg.overflow:
         return "skip"
     import blackbird.auxiliary as aux
     aux._VAR.clear()
